@@ -2,6 +2,7 @@ package main
 
 import (
 	"fmt"
+	"os"
 	"math/big"
 	"strings"
 )
@@ -55,7 +56,7 @@ func (ce *CEnv) evalTerm(e *CExpr) *Term {
 		if x.Nil {
 			return Zero
 		}
-		return IntLit(int64(1000000 + x.Cell.id))
+		return Ite(x.nilTerm(), Zero, IntLit(int64(1000000+x.Cell.id)))
 	}
 	panic(ce.errf(e, "expected scalar, got %T", v))
 }
@@ -258,7 +259,7 @@ func (ex *Exec) valEq(a, b Val, e *CExpr) *Term {
 			return Eq(x.T, y.ID)
 		case *RefV:
 			if x.T == Zero {
-				return BoolLit(y.Nil)
+				return y.nilTerm()
 			}
 		case *SliceV:
 			if x.T.Sort.IsArr() {
@@ -276,13 +277,14 @@ func (ex *Exec) valEq(a, b Val, e *CExpr) *Term {
 		switch y := b.(type) {
 		case SV:
 			if y.T == Zero {
-				return BoolLit(x.Nil)
+				return x.nilTerm()
 			}
 		case *RefV:
 			if x.Nil || y.Nil {
-				return BoolLit(x.Nil && y.Nil)
+				return And(x.nilTerm(), y.nilTerm())
 			}
-			return BoolLit(x.Cell == y.Cell && len(x.Path) == 0 && len(y.Path) == 0)
+			same := BoolLit(x.Cell == y.Cell && len(x.Path) == 0 && len(y.Path) == 0)
+			return Or(And(x.nilTerm(), y.nilTerm()), And(Not(x.nilTerm()), Not(y.nilTerm()), same))
 		}
 	case *SliceV:
 		switch y := b.(type) {
@@ -377,6 +379,41 @@ func (ce *CEnv) evalCall(e *CExpr) Val {
 			return &ObjV{K: &Kind{K: "obj", Name: "nilderef"}, ID: Fresh("nilderef", SInt), Ghost: map[string]Val{}}
 		}
 		return ce.ex.load(st, r, nil)
+	case "origin":
+		// origin(x, "F|G.0"): x is a result of one of the calls to F (last result by default, or result k with F.k) made on this path
+		v := ce.eval(args[0])
+		st := ce.st
+		if st == nil {
+			st = ce.ex.cur
+		}
+		var alts []*Term
+		for _, spec := range strings.Split(args[1].S, "|") {
+			name, idx := spec, -1
+			if d := strings.Index(spec, "."); d >= 0 {
+				name = spec[:d]
+				fmt.Sscanf(spec[d+1:], "%d", &idx)
+			}
+			for _, rs := range st.calls[name] {
+				if len(rs) == 0 {
+					continue
+				}
+				k := idx
+				if k < 0 {
+					k = len(rs) - 1
+				}
+				if k >= len(rs) {
+					continue
+				}
+				func() {
+					defer func() { recover() }()
+					alts = append(alts, ce.ex.valEq(v, rs[k], e))
+				}()
+			}
+		}
+		if os.Getenv("VERIF_DEBUG") != "" {
+			fmt.Fprintf(os.Stderr, "origin(%v,%s): calls=%v alts=%v\n", v, args[1].S, st.calls, alts)
+		}
+		return SV{T: Or(alts...)}
 	case "isnil":
 		v := ce.eval(args[0])
 		return SV{T: ce.ex.valEq(v, SV{T: Zero}, e)}
@@ -482,3 +519,4 @@ func expandBounded(b *Term, body *Term) *Term {
 	}
 	return And(out...)
 }
+
